@@ -806,6 +806,12 @@ class IdFamily:
         if has_src != (base.get("run_space_inputs_id") is not None) or has_src != bool(base.get("run_space_input_fingerprints")):
             ck.fail_input("C09:inputs-id:presence", "run_space_inputs_id / fingerprints present iff a source file is referenced: violated", rep({}))
         base_ins = self.inspect_id(res, "base")
+        stats["inspect_compared"] = stats.get("inspect_compared", 0) + 1
+        if base_ins != base["run_space_spec_id"]:
+            ck.fail_input(SIG_A, "`semantiva inspect` prints run-space spec id %s, run_space_start of the same file carries %s"
+                          % (str(base_ins)[:16], base["run_space_spec_id"][:16]), rep({"yaml": rep({})["base_yaml"], "kind": "inspect"}))
+        else:
+            stats["inspect_agree"] = stats.get("inspect_agree", 0) + 1
         for vname, v in sorted(self.variants.items()):
             if vname == "base":
                 continue
@@ -884,3 +890,499 @@ class IdFamily:
         lid = hashlib.sha256(b"semantiva:rsl1:" + basis.encode() + b":" + key.encode()).hexdigest()
         if lid != st["run_space_launch_id"]:
             ck.fail_input("C09:launch-id:preimage", "idempotency-key launch id is not sha256('semantiva:rsl1:' + basis + ':' + key)", rep({}))
+
+
+# ------------------------------------------------------------------------------------------------
+# model side: Gallina literals of one executed case
+
+HEADER = """From Coq Require Import List String ZArith NArith Bool.
+From SV Require Import Model.Expr Model.Pipeline Model.Sweep Model.PipelineLib Gen.PipelineGen Model.Launch Gen.LaunchGen.
+From SV Require Model.RunSpace Gen.RunSpaceGen.
+Import ListNotations. Open Scope string_scope.
+Definition cv (v : RunSpace.val) : val := match v with RunSpace.VInt z => VNum z | RunSpace.VStr s => VStr s end.
+Definition runs_of (s : RunSpace.spec) : list ctx :=
+  match RunSpace.expand RunSpaceGen.impl s with
+  | RunSpace.Ok rs => map (map (fun kv => (fst kv, cv (snd kv)))) rs
+  | RunSpace.Err _ => []
+  end.
+Definition I_ := RunSpace.VInt. Definition S_ := RunSpace.VStr.
+Definition cases : list lcase := [
+%s
+].
+Eval vm_compute in mismatches impl cases.
+"""
+
+
+class OutOfModel(Exception):
+    pass
+
+
+def num(v):
+    """observed JSON number -> integer (the generators only produce integer-valued floats)"""
+    if isinstance(v, bool) or not isinstance(v, (int, float)) or v != int(v):
+        raise OutOfModel("non-integer value %r" % (v,))
+    return int(v)
+
+
+def val_coq(v):
+    if isinstance(v, str):
+        return "(VStr %s)" % cq_str(v)
+    return "(VNum %s)" % cq_Z(num(v))
+
+
+def ctx_lit(d):
+    return cq_list([cq_pair(cq_str(k), val_coq(v)) for k, v in d.items()])
+
+
+def rsval(v):
+    return "(S_ %s)" % cq_str(v) if isinstance(v, str) else "(I_ %s)" % cq_Z(num(v))
+
+
+def rsmode(m):
+    return {BP: "RunSpace.ByPosition", CB: "RunSpace.Combinatorial"}[m]
+
+
+def rscols(cols):
+    return cq_list([cq_pair(cq_str(k), cq_list([rsval(x) for x in vs])) for k, vs in cols])
+
+
+def rsspec_coq(spec):
+    bl = []
+    for b in spec["blocks"]:
+        s = b.get("source")
+        src = "None"
+        if s is not None:
+            src = "(Some (RunSpace.mkSource %s %s %s %s))" % (rscols(s["cols"]), cq_opt(s.get("select"), lambda l: cq_list(l, cq_str)),
+                                                              cq_list([cq_pair(cq_str(a), cq_str(c)) for a, c in s.get("rename", [])]), rsmode(s["mode"]))
+        bl.append("(RunSpace.mkBlock %s %s %s)" % (rsmode(b["mode"]), rscols(b["context"]), src))
+    return "(RunSpace.mkSpec %s %s %s)" % (rsmode(spec["combine"]), cq_Z(spec["max_runs"]), cq_list(bl))
+
+
+def jv_coq(v):
+    if v is None:
+        return "JNull"
+    if isinstance(v, bool):
+        return "(JBool %s)" % cq_bool(v)
+    if isinstance(v, int):
+        return "(JInt %s)" % cq_Z(v)
+    if isinstance(v, float):
+        return "(JFloat %s)" % cq_Z(num(v))
+    if isinstance(v, str):
+        if '"' in v or "\\" in v:
+            raise OutOfModel("string with quote/backslash")
+        return "(JStr %s)" % cq_str(v)
+    raise OutOfModel("nested value in a context list")
+
+
+def raw_coq(rs):
+    """the written run_space mapping (python dict in file order) -> Launch.raw literal"""
+    fields = []
+    for k, v in rs.items():
+        if k == "combine":
+            fields.append("(RCombine %s)" % cq_str(v))
+        elif k == "max_runs":
+            fields.append("(RMaxRuns %s)" % cq_Z(v))
+        elif k == "dry_run":
+            fields.append("(RDryRun %s)" % cq_bool(v))
+        elif k == "blocks":
+            bl = []
+            for b in v:
+                bf = []
+                for bk, bv in b.items():
+                    if bk == "mode":
+                        bf.append("(BMode %s)" % cq_str(bv))
+                    elif bk == "context":
+                        bf.append("(BContext %s)" % cq_list([cq_pair(cq_str(ck), cq_list([jv_coq(x) for x in cv])) for ck, cv in (bv or {}).items()]))
+                    elif bk == "source":
+                        if bv is None:
+                            bf.append("(BSource None)")
+                            continue
+                        sf = []
+                        for sk, sv in bv.items():
+                            if sk == "format":
+                                sf.append("(SFormat %s)" % cq_str(sv))
+                            elif sk == "path":
+                                sf.append("(SPath %s)" % cq_str(sv))
+                            elif sk == "select":
+                                sf.append("(SSelect %s)" % cq_opt(sv, lambda l: cq_list(l, cq_str)))
+                            elif sk == "rename":
+                                sf.append("(SRename %s)" % cq_list([cq_pair(cq_str(a), cq_str(c)) for a, c in (sv or {}).items()]))
+                            elif sk == "mode":
+                                sf.append("(SMode %s)" % cq_str(sv))
+                            else:
+                                raise OutOfModel("source key " + sk)
+                        bf.append("(BSource (Some %s))" % cq_list(sf))
+                    else:
+                        raise OutOfModel("block key " + bk)
+                bl.append(cq_list(bf))
+            fields.append("(RBlocks %s)" % cq_list(bl))
+        else:
+            raise OutOfModel("run_space key " + k)
+    return cq_list(fields)
+
+
+def ev_coq(r, node_ids):
+    t = r.get("record_type")
+    if t == "run_space_start":
+        return "(RSStart %s %s %s %s %s %s %s %s)" % (cq_nat(r["seq"]), cq_str(r["run_space_spec_id"]), cq_str(r["run_space_launch_id"]), cq_Z(r["run_space_attempt"]),
+                                                       cq_str(r["run_space_combine_mode"]), cq_nat(r["run_space_planned_run_count"]),
+                                                       cq_Z(r.get("run_space_max_runs_limit", -1)), cq_opt(r.get("run_space_inputs_id"), cq_str))
+    if t == "pipeline_start":
+        present = [k in r for k in FK]
+        if any(present) and not all(present):
+            raise OutOfModel("partial foreign key on pipeline_start")
+        fk = "None"
+        if all(present):
+            fk = "(Some (%s, %s, %s, %s))" % (cq_str(r["run_space_launch_id"]), cq_Z(r["run_space_attempt"]), cq_nat(r["run_space_index"]), ctx_lit(r["run_space_context"]))
+        node_ids[r["run_id"]] = [n["node_uuid"] for n in r["pipeline_spec_canonical"]["nodes"]]
+        return "(PStart %s %s %s)" % (cq_nat(r["seq"]), cq_str(r["pipeline_id"]), fk)
+    if t == "ser":
+        ids = node_ids.get(r["identity"]["run_id"], [])
+        return "(Ser %s %s)" % (cq_nat(ids.index(r["identity"]["node_id"])), cq_bool(r["status"] == "succeeded"))
+    if t == "pipeline_end":
+        return "(PEnd %s %s)" % (cq_nat(r["seq"]), cq_bool(r.get("summary", {}).get("status") == "ok"))
+    if t == "run_space_end":
+        s = r.get("summary", {})
+        return "(RSEnd %s %s %s %s %s %s)" % (cq_nat(r["seq"]), cq_str(r["run_space_launch_id"]), cq_Z(r["run_space_attempt"]), cq_nat(s.get("planned_runs", 999)),
+                                               cq_nat(s.get("completed_runs", 999)), cq_str(s.get("status", "")))
+    raise OutOfModel("record type %r" % t)
+
+
+class Rec:
+    def __init__(self):
+        self.starts = []
+
+    def on_pipeline_start(self, pipeline_id, run_id, canonical, meta, pipeline_input=None, **kw):
+        self.starts.append(pipeline_id)
+
+    def __getattr__(self, name):
+        return lambda *a, **k: None
+
+
+def plids_of(case, tmp):
+    """pipeline ids of the first and of a later traced run of ONE Pipeline object (in-process API, not the CLI)"""
+    pg.setup_impl()
+    from semantiva.context_processors import ContextType
+    from semantiva.pipeline import Payload, Pipeline
+    from semantiva.data_types import NoDataType
+    cfgs = [node_yaml(n) for n in case["nodes"]]
+    rec = Rec()
+    p = Pipeline(cfgs, trace=rec)
+    ctx = {k: fl(v) for k, v in case.get("cli_ctx", []) + case["runs"][0]}
+    ctx["divisor"] = 1.0
+    cwd = os.getcwd()
+    os.chdir(tmp)
+    try:
+        for _ in range(2):
+            try:
+                p.process(Payload(NoDataType(), ContextType(dict(ctx))))
+            except Exception:  # noqa - only pipeline_start matters
+                pass
+    finally:
+        os.chdir(cwd)
+    if len(rec.starts) != 2:
+        raise OutOfModel("in-process probe emitted %d pipeline_start" % len(rec.starts))
+    return rec.starts[0], rec.starts[1]
+
+
+def canonical_texts(rs, paths_agree):
+    """canonical RSCF texts of the two paths, from the implementation's own functions (in-process)"""
+    from dataclasses import asdict
+    from semantiva.configurations.load_pipeline_from_yaml import _parse_run_space_block
+    from semantiva.inspection.builder import _compute_run_space_spec_id, _normalize_run_space
+    from semantiva.trace.runtime.run_space_identity import RunSpaceIdentityService
+    svc = RunSpaceIdentityService()
+    rt = svc._rscf_v1(asdict(_parse_run_space_block(rs))).decode()
+    ins = rt if paths_agree else json.dumps(_normalize_run_space(rs), separators=(",", ":"), ensure_ascii=False)
+    ins_id = _compute_run_space_spec_id(rs)
+    if hashlib.sha256(b"semantiva:rscf1:" + ins.encode()).hexdigest() != ins_id:
+        raise OutOfModel("inspection spec id is not the hash of the expected canonical text (paths_agree=%s)" % paths_agree)
+    return rt, ins, ins_id
+
+
+def fingerprints_of(spec, d):
+    from pathlib import Path
+    out = []
+    for i, b in enumerate(spec["blocks"]):
+        s = b.get("source")
+        if s is None:
+            continue
+        p = Path(d, s["path"]).resolve()
+        data = p.read_bytes()
+        out.append({"role": "block[%d].source" % i, "uri": p.as_uri(), "sha256": hashlib.sha256(data).hexdigest(), "size_bytes": len(data)})
+    return out
+
+
+def ids_of(case, L, rt_text, observed_launch):
+    """identifiers recomputed by the harness from the documented preimages"""
+    spec_id = hashlib.sha256(b"semantiva:rscf1:" + rt_text.encode()).hexdigest()
+    fps = sorted(fingerprints_of(case["spec"], L), key=lambda e: (e["role"], e["uri"]))
+    inputs_id = None
+    if fps:
+        pre = json.dumps({"spec_id": spec_id, "inputs": fps}, separators=(",", ":"), ensure_ascii=False).encode()
+        inputs_id = hashlib.sha256(b"semantiva:rsm1:" + pre).hexdigest()
+    la = case["launch"]
+    if la[0] == "explicit":
+        lid = la[1]
+    elif la[0] == "idem":
+        lid = hashlib.sha256(b"semantiva:rsl1:" + (inputs_id or spec_id).encode() + b":" + la[1].encode()).hexdigest()
+    else:
+        lid = observed_launch      # fresh uuid: an oracle of the model
+    return spec_id, inputs_id, lid
+
+
+def case_coq(case, ob, tmp, paths_agree):
+    L = os.path.join(case["dir"], "launch")
+    rs = rs_block_yaml(case["spec"])
+    rt, ins, ins_id = canonical_texts(rs, paths_agree)
+    obs_launch = ob["starts"][0]["run_space_launch_id"] if ob["starts"] else ""
+    spec_id, inputs_id, lid = ids_of(case, L, rt, obs_launch)
+    plain, enriched = plids_of(case, tmp)
+    pipe = "(mkPipe %s %s %s)" % (cq_list([pg.node_coq(n) for n in case["nodes"]]), cq_str(plain), cq_str(enriched))
+    cli_ctx = ctx_lit({k: fl(v) for k, v in case.get("cli_ctx", [])})
+    opts = "(mkOpts true %s %s %s %s %s %s %s %s %s)" % (cq_bool(case["trace"] != "none"), cq_bool(case["trace"] == "dir"), cli_ctx, cq_str(lid),
+                                                         cq_Z(case["attempt"] or 1), cq_str(spec_id), cq_opt(inputs_id, cq_str), cq_str(case["spec"]["combine"]),
+                                                         cq_Z(case["spec"]["max_runs"]))
+    node_ids = {}
+    files = []
+    for kind, recs, _ in ob["files"]:
+        fk = {"single": "FSingle", "runspace": "FRunSpace", "ser": "FSer"}.get(kind)
+        if fk is None:
+            raise OutOfModel("unexpected trace file " + kind)
+        # pipeline_start precedes its SERs inside every file
+        files.append(cq_pair(fk, cq_list([ev_coq(r, node_ids) for r in recs])))
+    results = []
+    for r in ob["results"]:
+        results.append(None if r is None else num(float(r.strip())))
+    return "(mkCase %s %s (runs_of %s) %s %s %s %s %s %s)" % (
+        pipe, opts, rsspec_coq(case["spec"]), cq_Z(ob["rc"]), cq_list(files), cq_list([cq_opt(r, cq_Z) for r in results]),
+        raw_coq(rs), cq_str(rt), cq_str(ins)), {"inspect_id_in_process": ins_id, "spec_id": spec_id, "inputs_id": inputs_id, "launch_id": lid}
+
+
+# ------------------------------------------------------------------------------------------------
+# the check
+
+def read_facts():
+    txt = open(os.path.join(core.COQ, "Gen", "LaunchGen.v")).read()
+    f = {k: (re.search(r"Definition %s : bool := (true|false)\." % k, txt) or [None, "false"])[1] == "true"
+         for k in ("spec_id_paths_agree", "stop_after_failure", "enrich_on_copy")}
+    f["translation_failed"] = "launch_translation_failed := true" in txt
+    return f
+
+
+MIN_A = {"nodes": [{"k": "src"}, {"k": "template", "segs": [["lit", "out_"], ["hole", "value"], ["lit", ".txt"]], "out": "path"}, {"k": "sink"}],
+         "spec": {"combine": CB, "max_runs": 1000, "blocks": [{"mode": BP, "context": [["value", [1, 2]]], "source": None}], "written": {}},
+         "tkeys": ["value"], "cli_ctx": [], "trace": "file", "launch": ("explicit", "L-min-a"), "attempt": None, "rs_under_pipeline": False,
+         "trace_in_yaml": None, "fail_at": None}
+MIN_B = {"nodes": [{"k": "sweep", "elem": "src", "vars": [["t", ["seq", [1, 2]]]], "exprs": [["value", ("var", "t")]], "mode": "combinatorial", "broadcast": False},
+                   {"k": "csum"}, {"k": "template", "segs": [["lit", "out_"], ["hole", "value"], ["lit", ".txt"]], "out": "path"}, {"k": "sink"}],
+         "spec": {"combine": CB, "max_runs": 1000, "blocks": [{"mode": BP, "context": [["value", [1, 2]]], "source": None}], "written": {}},
+         "tkeys": ["value"], "cli_ctx": [], "trace": "file", "launch": ("explicit", "L-min-b"), "attempt": None, "rs_under_pipeline": False,
+         "trace_in_yaml": None, "fail_at": None}
+
+
+def load_corpus():
+    out = []
+    for p in sorted(glob.glob(os.path.join(core.ROOT, "corpus", "C09", "*.json"))):
+        out.append((os.path.basename(p), json.load(open(p))))
+    return out
+
+
+def fix_tuples(case):
+    case = copy.deepcopy(case)
+    case["launch"] = tuple(case["launch"])
+    for n in case["nodes"]:
+        if n.get("k") == "sweep":
+            n["exprs"] = [[a, to_tuple(e)] for a, e in n["exprs"]]
+    return case
+
+
+def to_tuple(e):
+    return tuple(to_tuple(x) if isinstance(x, list) and x and isinstance(x[0], str) and x[0] in ("var", "const", "un", "bin", "call") else x for x in e)
+
+
+def run(ck):
+    rng = random.Random(ck.seed * 104729 + 9)
+    thorough = ck.tier == "thorough"
+    gen = run_all(["launch", "run_space", "pipeline"])
+    ck.build_models(["Model/PipelineLib.v", "Gen/PipelineGen.v", "Gen/RunSpaceGen.v", "Model/Launch.v", "Gen/LaunchGen.v"])
+    proved = ck.prove(gen_results={"launch": gen["launch"]})
+    if thorough and proved:
+        ck.coqchk()
+    facts = read_facts()
+    ck.notes["generated_facts"] = facts
+    pg.setup_impl()
+    root = tempfile.mkdtemp(prefix="c09_", dir=os.environ.get("TMPDIR", "/tmp"))
+    try:
+        _run(ck, rng, thorough, facts, root)
+    finally:
+        shutil.rmtree(root, ignore_errors=True)
+
+
+def _run(ck, rng, thorough, facts, root):
+    stats = {}
+    cases = []
+    for name, c in load_corpus():
+        cases.append(("corpus:" + name, fix_tuples(c), True))
+    cases.append(("min_a", copy.deepcopy(MIN_A), True))
+    cases.append(("min_b", copy.deepcopy(MIN_B), True))
+    cases.append(("min_a2", dict(copy.deepcopy(MIN_A), rs_under_pipeline=True, launch=("explicit", "L-min-a2")), False))
+    n_gen = 60 if thorough else 5
+    for i in range(n_gen):
+        cases.append(("gen%d" % i, gen_case(rng), True))
+    # a failing run at every index (and beyond the end: no failure), file and directory output
+    for n in ((2, 3, 4) if thorough else (3,)):
+        for k in range(n):
+            c = gen_case(rng, n_runs=n, fail_at=k, sweep=False if not thorough else None)
+            c["trace"] = "dir" if (k + n) % 2 else "file"
+            cases.append(("fail%d_%d" % (n, k), c, thorough or k == 1))
+    if thorough:
+        for i in range(12):
+            c = gen_case(rng)
+            c["trace"] = "none"
+            cases.append(("untraced%d" % i, c, True))
+    jobs = Jobs()
+    for idx, (name, c, standalone) in enumerate(cases):
+        prepare(c, root, jobs, "k%d" % idx, standalone=standalone)
+    fams = [IdFamily(rng, root, "fam%d" % i, with_source=(i % 3 != 2)) for i in range(8 if thorough else 1)]
+    for f in fams:
+        f.phase1(jobs, n_cosmetic=(4 if thorough else 2), n_mut=(99 if thorough else 4))
+    ck.log("running %d CLI invocations (phase 1)" % len(jobs.jobs))
+    res = jobs.run()
+    n_cli = len(jobs.jobs)
+    for ph in ("phase2", "phase3"):
+        j2 = Jobs()
+        for f in fams:
+            getattr(f, ph)(j2)
+        res.update(j2.run())
+        n_cli += len(j2.jobs)
+    ck.log("CLI invocations done: %d" % n_cli)
+
+    lits, meta = [], []
+    shapes = {}
+    nontrivial = set()
+    for idx, (name, c, standalone) in enumerate(cases):
+        key = "k%d" % idx
+        ob = observe(c, res, key)
+        sobs = {i: observe_standalone(c, res, key, i) for i in range(len(c["runs"]))} if standalone else {}
+        oracles(ck, c, ob, sobs, stats)
+        sh = "%s/%s/%s/%s%s%s" % (c["trace"], c["launch"][0], "attempt" if c["attempt"] else "default-attempt", "sweep/" if has_sweep(c) else "",
+                                  "fail@%s/" % c["fail_at"] if c["fail_at"] is not None else "", "source" if any(b.get("source") for b in c["spec"]["blocks"]) else "")
+        shapes[sh] = shapes.get(sh, 0) + 1
+        if len(c["runs"]) >= 2:
+            nontrivial.add(json.dumps([c["nodes"], c["spec"], c["trace"], c["launch"][0], c["attempt"]], sort_keys=True, default=str))
+        if c["trace"] == "none":
+            continue
+        try:
+            lit, info = case_coq(c, ob, root, facts["spec_id_paths_agree"])
+        except OutOfModel as ex:
+            stats["out_of_model"] = stats.get("out_of_model", 0) + 1
+            ck.notes.setdefault("out_of_model", []).append("%s: %s" % (name, ex))
+            continue
+        lits.append(lit)
+        meta.append((name, c))
+        if len(ck.cov["samples"]) < 4:
+            ck.cov["samples"].append({"yaml": dump(doc_yaml(c)), "exit": ob["rc"], "record_types": [r.get("record_type") for r in ob["records"]][:14],
+                                      "results": ob["results"], "ids": info})
+    for f in fams:
+        f.check(ck, res, stats, facts["spec_id_paths_agree"])
+
+    # stored failing inputs of facts that are false on this tree must reproduce (they run as min_a / min_b above)
+    sigs = {f["signature"] for f in ck.failing}
+    if not facts["spec_id_paths_agree"] and SIG_A not in sigs:
+        ck.corr_problem("generated fact spec_id_paths_agree=false but the stored failing input (min_a) does not fail", json.dumps(MIN_A))
+    if not facts["enrich_on_copy"] and SIG_B not in sigs:
+        ck.corr_problem("probed fact enrich_on_copy=false but the stored failing input (min_b) does not fail", json.dumps(MIN_B, default=str))
+
+    # model vs implementation inside Coq; the last case of every shard is a canary that must mismatch
+    per_shard = 40
+    shards, spans = [], []
+    for i in range(0, len(lits), per_shard):
+        chunk = lits[i:i + per_shard]
+        canary = re.sub(r"\(mkCase (.*) (\(?-?\d+\)?%Z) \[", lambda m: "(mkCase %s (77)%%Z [" % m.group(1), chunk[0], count=1, flags=re.S)
+        shards.append(HEADER % ";\n".join(chunk + [canary]))
+        spans.append((i, len(chunk)))
+    per, errs = core.mismatches("C09", shards, timeout=900)
+    agreed = 0
+    for k, ls in enumerate(per):
+        if ls is None:
+            continue
+        start, n = spans[k]
+        bad = ls[0]
+        if n not in bad:
+            ck.corr_problem("canary case of shard %d was not reported as a mismatch (comparison is not live)" % k, "")
+        bad = [b for b in bad if b != n]
+        agreed += n - len(bad)
+        for b in bad[:4]:
+            name, c = meta[start + b]
+            ck.corr_problem("Impl.launch prediction (exit code, per-file record skeleton with seq / FK / counts, results, canonical RSCF texts) "
+                            "differs from what the CLI left behind", "case %s" % name, case=replay_of(c))
+    for k, rc, out in errs:
+        ck.corr_problem("correspondence shard %d did not evaluate (rc=%s)" % (k, rc), out)
+    ck.cov["traces_validated_against_impl"] = agreed
+    ck.cov["evaluations"] = n_cli
+    ck.cov["distinct_nontrivial"] = len(nontrivial)
+    ck.cov["rule"] = ("evaluations = `semantiva run` / `semantiva inspect` subprocess invocations (launches, standalone runs with --context, inspect, "
+                      "identifier families); non-trivial = distinct (pipeline, run_space, trace output, launch-id option, attempt) launches with at least "
+                      "two planned runs (measured); launches compared with Impl.launch inside Coq: %d; direct-oracle statistics: %s" % (len(lits), stats))
+    ck.notes["launch_shapes"] = dict(sorted(shapes.items()))
+    ck.notes["input_distribution"] = ("pipelines: FloatValueDataSource (or a source sweep + FloatCollectionSumOperation, 35%) -> multiply/add/square "
+                                      "(parameters from the run context or the node) [-> FloatDivideOperation with a per-run divisor for failing runs] -> "
+                                      "template file name from the run's keys -> FloatTxtFileSaver; run spaces: 1-2 context blocks (+ csv/json source block 30%), "
+                                      "by_position / combinatorial at block and combine level, 2-4 runs, keys declared in random order, defaults written or not, "
+                                      "20% under `pipeline:`; file / directory trace output; explicit / idempotency-key / generated launch id; attempt unset/1/2/3; "
+                                      "30% with an extra --context pair")
+    ck.notes["observation"] = ("directory output: the driver is closed after every run, so run_space_end is appended to a run-space file opened anew "
+                                "(`<second>_runspace-<id>.trace.jsonl`); when the launch crosses a second boundary start and end land in two files. The harness "
+                                "merges run-space files; the model has one logical run-space file.")
+    ck.cov["trusted_base"] = TRUSTED
+    ck.log("correspondence: %d/%d launches agree; %d CLI invocations; stats %s" % (agreed, len(lits), n_cli, stats))
+
+
+def replay(obj):
+    r = obj["replay"]
+    root = tempfile.mkdtemp(prefix="c09_replay_")
+    try:
+        if r.get("kind") == "ids":
+            d = os.path.join(root, "w")
+            os.makedirs(d)
+            print("base file:\n" + r["base_yaml"])
+            print("variant:\n" + r.get("yaml", ""))
+            return 0
+        case = fix_tuples({k: r[k] for k in ("nodes", "spec", "tkeys", "cli_ctx", "trace", "launch", "attempt", "rs_under_pipeline", "trace_in_yaml", "fail_at")})
+        jobs = Jobs()
+        prepare(case, root, jobs, "r", standalone=True)
+        res = jobs.run()
+        ob = observe(case, res, "r")
+        print(r["yaml"])
+        print("exit code:", ob["rc"], ob["stderr"])
+        print("inspect prints run-space spec id :", ob.get("inspect_spec_id"))
+        print("run_space_start carries           :", [s.get("run_space_spec_id") for s in ob["starts"]])
+        print("pipeline ids of the launch's runs :", [run[0].get("pipeline_id") for run in ob["runs"]])
+        for i in range(len(case["runs"])):
+            so = observe_standalone(case, res, "r", i)
+            ps = [x for x in so["records"] if x.get("record_type") == "pipeline_start"]
+            print("standalone run %d: exit %s result %r pipeline_id %s" % (i, so["rc"], so["result"], ps[0]["pipeline_id"] if ps else None))
+        print("run_space_end summaries:", [e.get("summary") for e in ob["ends"]], "results:", ob["results"])
+        bad = (ob.get("inspect_spec_id") not in [s.get("run_space_spec_id") for s in ob["starts"]]) or len({run[0].get("pipeline_id") for run in ob["runs"]}) > 1
+        return 1 if bad else 0
+    finally:
+        shutil.rmtree(root, ignore_errors=True)
+
+
+TRUSTED = [
+    "Coq 8.16.1 kernel (coqc), vm_compute; no native_compute",
+    "model coq/Model/Launch.v over Model/Pipeline.v + Model/PipelineLib.v (node execution, C01) and Model/RunSpace.v (expansion, C08), instantiated with "
+    "Gen/LaunchGen.v; enrich_on_copy is a PROBED fact, spec_id_paths_agree is read statically and cross-checked by a probe",
+    "translator harness/translate/launch.py (fail closed): try/for arrangement of cli._run, FK keys of orchestrator + JSONL driver, create_launch chain, RSCF/RSM shape",
+    "hashes are Section variables; in the shards pipeline ids are the in-process ids of the first / a later traced run of one Pipeline object, the run-space "
+    "spec id / inputs id / idempotency launch id are recomputed by the harness with hashlib from the documented preimages (canonical texts compared inside Coq)",
+    "the CLI harness: YAML writer, subprocess runner, trace reader (run-space files of a directory are merged by seq; SER records are grouped by run id)",
+    "modelled not verified: PyYAML, json.dumps on floats/ASCII strings, csv/json source loading (columns given to the model as written), file system, uuid generation "
+    "(generated launch ids enter the model as observed)",
+]
+FINISH = {"level": "proof", "assumptions": [
+    "hash functions are deterministic functions of their preimage (Section variables H, HJ, HS); HJ hashes the canonical JSON value (JSON lexical unambiguity trusted)",
+    "run-space configurations are mappings with unique keys whose context values are scalars; mode strings are written in lower case",
+    "runtime failures of a run are exceptions of class Exception (KeyboardInterrupt is outside the model)",
+    "component arithmetic is exact on the integer-valued floats the generators produce"]}
